@@ -5,7 +5,9 @@
      jls_decode  <hex> | jlsn_decode <hex> | t87_decode <hex>
                                    -> ok:<w>,<h>,<comps>,<P>,<near>:<hexpixels> | err | panic | fuel
      jls_params  <P> <near>   -> maxval,near,range,qbpp,limit,t1,t2,t3,reset  (as coded)
-     t87_params  <P> <near>   -> the same from the T.87 formulas *)
+     t87_params  <P> <near>   -> the same from the T.87 formulas
+     jls_gw <item,item,...>   -> hex of the GolombWriter output incl. Flush; item = v:n (WriteBits(v,n))
+                                 or e:k:m:limit:qbpp (EncodeMappedValue) *)
 open BinNums
 open Conv
 
@@ -59,6 +61,16 @@ let register (reg : string -> (string list -> string) -> unit) : unit =
     | _ -> "?");
   reg "t87_decode" (fun a -> match a with
     | [s] -> outcome_t87 (JlsT87Dec.t87_decode lim (bytes_of_hex s))
+    | _ -> "?");
+  reg "jls_gw" (fun a -> match a with
+    | [s] ->
+      let items = if s = "_" then [] else String.split_on_char ',' s in
+      let ops = L.concat_map (fun it ->
+        match String.split_on_char ':' it with
+        | ["e"; k; m; limit; qbpp] -> JlsGolomb.encode_mapped_ops (zi k) (zi m) (zi limit) (zi qbpp)
+        | [v; n] -> [(zi v, zi n)]
+        | _ -> failwith "item") items in
+      hex_of_bytes (JlsGolomb.gw_run ops)
     | _ -> "?");
   reg "jls_params" (fun a -> match a with
     | [p; near] -> params_string (JlsParams.jls_params (zi p) (zi near))
